@@ -163,6 +163,7 @@ def run(ctx):
     blades_pass(ctx)
     strict_wrapper_pass(ctx)
     registered_symbolic_options_pass(ctx)
+    chained_operators_pass(ctx)
     ctx.assumptions = ['floats only where kingdon itself introduces them (sqrt, outer series): compared to 1e-9',
                        'codegen_symbolcls=sympy.Symbol is slow; dense composite operators are skipped for it in d >= 3']
 
@@ -288,6 +289,50 @@ def registered_symbolic_options_pass(ctx):
                         ctx.violation('option-raises', case, str(exp[1])[:150], str(got[1])[:200], key=f'raises:{optname}:registered-symbolic:{f.__name__}')
                     elif not close(got[1], exp[1]):
                         ctx.violation('option-differs', case, str(exp[1])[:200], str(got[1])[:200], key=f'differs:{optname}:registered-symbolic:{f.__name__}')
+
+
+def chained_operators_pass(ctx):
+    """results fed into further operators (r = x*y; r*z, r+z, ~r, z|r, r.grade(..), -r ^ z) under EVERY combination of the options
+    {cse} x {graded} x {codegen_symbolcls} x {wrapper}: the chain returns the default-option element (graded mode insists on
+    complete grades in canonical order, so a result stored in another order breaks the next operator)"""
+    import sympy
+    from kingdon import MultiVector
+    rng = ctx.rng
+    chains = {'(x*y)*z': lambda x, y, z: (x * y) * z, '(x*y)+z': lambda x, y, z: (x * y) + z, '~(x*y)': lambda x, y, z: ~(x * y),
+              'z|(x*y)': lambda x, y, z: z | (x * y), '(x+y)^z': lambda x, y, z: (x + y) ^ z, '-(x^y)*z': lambda x, y, z: -(x ^ y) * z,
+              '(x*y).grade(1)*z': lambda x, y, z: (x * y).grade(1) * z, '(x|y)-(z*x)': lambda x, y, z: (x | y) - (z * x)}
+    for sig in ([1, 1, 1], [1, -1, 1, 1]):
+        d = len(sig)
+        base_alg = make_algebra(sig)
+        full = list(base_alg.canon2bin.values())
+        g = lambda *gs: [k for k in full if grade(k) in gs]
+        operands = [(g(1), g(2), g(1)), (g(2), g(1), g(0, 2)), (g(1), g(1), g(2)), (g(0, 2), g(1), g(1))]
+        for cse, graded, symcls, wrapper in itertools.product((True, False), (False, True), (None, 'sympy'), (None, 'ident')):
+            if (cse, graded, symcls, wrapper) == (True, False, None, None):
+                continue
+            kw = {'cse': cse, 'graded': graded}
+            if symcls: kw['codegen_symbolcls'] = sympy.Symbol
+            if wrapper: kw['wrapper'] = ident
+            alg = make_algebra(sig, **kw)
+            opts = {'cse': cse, 'graded': graded, 'symcls': symcls, 'wrapper': wrapper}
+            for kx, ky, kz in (operands if not ctx.quick else rng.sample(operands, 2)):
+                vals = [[Fraction(rng.randint(1, 7)) for _ in k] for k in (kx, ky, kz)]
+                for cname, fn in chains.items():
+                    def ev(a):
+                        ms = [MultiVector.fromkeysvalues(a, tuple(k), list(v)) for k, v in zip((kx, ky, kz), vals)]
+                        return result(lambda: fn(*ms))
+                    base = ev(base_alg)
+                    if base[0] != 'ok':
+                        continue
+                    got = ev(alg)
+                    case = {'sig': sig, 'options': opts, 'chain': cname, 'kx': kx, 'ky': ky, 'kz': kz}
+                    ctx.case(case, tag='opts:chain')
+                    if got[0] != 'ok':
+                        ctx.violation('option-raises', case, str(base[1])[:150], 'raises ' + str(got[1])[:150], key=f'raises:chain:{optkey(opts)}')
+                        break
+                    if not close(got[1], base[1]):
+                        ctx.violation('option-differs', case, str(base[1])[:200], str(got[1])[:200], key=f'differs:chain:{optkey(opts)}')
+                        break
 
 
 def blades_pass(ctx):
